@@ -1,5 +1,100 @@
-"""placeholder until the shape-inference engine (E3) lands"""
+"""rules decided on the result of shape inference (E3): output schema == reference,
+dangling table keys, key collisions"""
+from __future__ import annotations
+
+from .core import AnalysisError, short
+from .schema import Pipelines, load_reference
+
+_CACHE = {}
+
+PIPES = {
+    "C03": ["lines:signal", "lines:processed", "header"],
+    "C04": ["leader"],
+    "C16": ["volume"],
+}
+TABLE_OWNERS = {
+    "C03": ("ceos_alos2.sar_image.metadata",),
+    "C04": ("ceos_alos2.sar_leader.",),
+    "C16": ("ceos_alos2.volume_directory.metadata",),
+}
+MIN_ENTRIES = {"C03": 100, "C04": 300, "C16": 12}
+
+
+def pipelines(repo, L):
+    key = id(repo)
+    if key not in _CACHE:
+        p = Pipelines(repo, L)
+        p.run()
+        _CACHE[key] = p
+    return _CACHE[key]
 
 
 def link_tables(chk, repo, L, pid):
-    chk.note("E3 table linking not yet built")
+    P = pipelines(repo, L)
+    ref = load_reference()
+    schemas = P.schemas()
+    r_schema = f"{pid}-T3"
+    r_dangle = f"{pid}-T3d"
+    r_coll = f"{pid}-T3c"
+    chk.rule(r_schema, "output schema derived by shape inference (group path, name, dims, source field, conversions, attrs) == reference schema", MIN_ENTRIES[pid])
+    chk.rule(r_coll, "no two surfacing keys collide when nesting layers are flattened or keys renamed", 1)
+    chk.trusted.append("typing rules of toolz/builtins in vlib/shapes_lib.py; spec/schema_reference.json (bootstrapped from the pinned commit, reviewed entry by entry against the struct layouts)")
+    n = 0
+    for pipe in PIPES[pid]:
+        cur = schemas[pipe]
+        want = ref.get(pipe)
+        if want is None:
+            raise AnalysisError(f"schema reference has no pipeline {pipe}")
+        for path, d in want.items():
+            n += 1
+            where = f"{pipe}:{path}"
+            got = cur.get(path)
+            if got is None:
+                # the same entry may have become optional / mandatory
+                alt = path[:-1] if path.endswith("?") else path + "?"
+                if alt in cur:
+                    chk.fail(r_schema, where, f"PRESENCE changed: reference has {path!r}, now {alt!r}", key=f"{pipe}:{path}:presence")
+                else:
+                    chk.fail(r_schema, where, f"MISSING: {path} = {d[:120]} no longer surfaces", key=f"{pipe}:{path}:missing")
+                continue
+            if "TOP(" in got and "TOP(" not in d:
+                raise AnalysisError(f"shape inference cannot determine {where} any more: {got[:160]}")
+            if got != d:
+                chk.fail(r_schema, where, f"CHANGED: reference {d[:160]} -> now {got[:160]}", key=f"{pipe}:{path}:changed")
+            else:
+                chk.ok(r_schema, where, d[:160], sample={"entry": where, "schema": d[:160]} if n % 60 == 1 else None)
+        new = [p for p in cur if p not in want and (p[:-1] if p.endswith("?") else p + "?") not in want]
+        if new:
+            chk.note(f"{pipe}: entries not in the reference schema (uncovered, not a violation): {new[:15]}")
+    # dangling keys
+    I = P.I
+    seen_tables = 0
+    for t in I.tables.values():
+        owner = t["owner"]
+        if not any(owner.startswith(pref) for pref in TABLE_OWNERS[pid]):
+            continue
+        if not t["probed"]:
+            continue
+        seen_tables += 1
+        missing = [m for m in t["members"] if m not in t["hits"] and m is not None]
+        where = f"{owner}: {short(t['node'], 50)}"
+        # informational only: a dead table entry is a silent no-op; when it has a consequence
+        # (field surfaces under another name / unconverted / as a variable) the schema comparison reports it
+        if missing:
+            chk.note(f"dead table entries (no field matches at the stage where the table is applied): {where}: {missing}")
+    if seen_tables == 0:
+        raise AnalysisError(f"no literal table of {TABLE_OWNERS[pid]} was consulted during shape inference")
+    # collisions on surfacing keys
+    surf = set()
+    for pipe in PIPES[pid]:
+        for path in schemas[pipe]:
+            last = path.rsplit("/", 1)[-1].lstrip("@").rstrip("?").split("@")[0]
+            surf.add(last)
+    coll = [(w, d) for k, w, d in I.events if k == "key-collision"]
+    bad = [f"{w}: {d}" for w, d in coll if any(repr(s) in d for s in surf)]
+    chk.require(not bad, r_coll, f"{pid} pipelines", f"{len(coll)} key collision(s) observed, none on a surfacing key",
+                f"surfacing keys collide (one silently overwrites the other): {bad[:3]}", key="collision")
+    chk.count("schema_entries", n)
+    for a in sorted(I.assumptions):
+        if a not in chk.assumptions:
+            chk.assumptions.append(a)
